@@ -238,3 +238,37 @@ func verifHarness_C10_primitives() {
 	_ = err
 	vReach()
 }
+
+// C10 on the fetch path as a whole: a fetch response block (every version class of the block
+// layout) whose records section consists of n arbitrary bytes, decoded through the real
+// FetchResponseBlock.decode loop (magic detection, Records union, legacy message sets incl.
+// nested compressed sets, record batches, partial trailing data): no panic, no endless loop
+// (every pass of the loop consumes input), no disproportionate allocation.
+func verifHarness_C10_fetchBlockRecords() {
+	vConfig("hang", 1)
+	ver := []int16{0, 4, 5, 11}[vChoose("blockVersion", 4)]
+	n := []int{17, 26, 34}[vChoose("recordsLen", 3)]
+	if vTier() > 0 {
+		n = []int{17, 26, 34, 48, 61}[vChoose("recordsLenT", 5)]
+	}
+	raw := []byte{0, 0, 0, 0, 0, 0, 0, 0, 0, 50} // no error, high-water mark
+	if ver >= 4 {
+		raw = append(raw, 0, 0, 0, 0, 0, 0, 0, 50) // last stable offset
+		if ver >= 5 {
+			raw = append(raw, 0, 0, 0, 0, 0, 0, 0, 0) // log start offset
+		}
+		raw = append(raw, 0, 0, 0, 0) // no aborted transactions
+	}
+	if ver >= 11 {
+		raw = append(raw, 0xff, 0xff, 0xff, 0xff) // preferred read replica
+	}
+	raw = append(raw, byte(n>>24), byte(n>>16), byte(n>>8), byte(n))
+	raw = append(raw, vBytes("records", n)...)
+	vAllocLimit(vMax(len(raw), 16))
+	var blk FetchResponseBlock
+	err := versionedDecode(raw, &blk, ver)
+	if err == nil {
+		vCover("accepted", true)
+	}
+	vReach()
+}
